@@ -55,10 +55,21 @@ Fixpoint read_block (frames : list N) (c : cur) : cur * list N :=
   | l :: r => if 0 <? l then ((0, l), r) else read_block r (0, 0)
   end.
 
-(* Reader::seek on a fresh reader positioned at a frame boundary: read_block, then
-   set_position(upos) with the 16-bit in-block offset of the virtual position, unchecked *)
-Definition seek (frames : list N) (upos : N) : cur * list N :=
-  let '((_, len), rest) := read_block frames (0, 0) in ((upos, len), rest).
+(* Data::set_position (after the repair of finding F12, commit "BGZF reader panicked after a seek
+   with an in-block offset beyond the block's data"): the cursor is clamped to the data length.
+   [set_position_unclamped] is the code before the repair. *)
+Definition set_position (c : cur) (p : N) : cur := (N.min p (snd c), snd c).
+Definition set_position_unclamped (c : cur) (p : N) : cur := (p, snd c).
+
+(* Reader::seek on a fresh reader positioned at a frame boundary: read_block; when it found no
+   data the block is reset to an empty one; then set_position(upos) with the 16-bit in-block
+   offset of the virtual position *)
+Definition seek_with (setp : cur -> N -> cur) (frames : list N) (upos : N) : cur * list N :=
+  let '(c, rest) := read_block frames (0, 0) in
+  let c' := if snd c =? 0 then (0, 0) else c in
+  (setp c' upos, rest).
+
+Definition seek := seek_with set_position.
 
 (* BufRead::fill_buf, returning the length of the slice *)
 Definition fill_buf (c : cur) (rest : list N) : res N :=
@@ -84,9 +95,13 @@ Definition read_exact1 (c : cur) (rest : list N) : res N :=
   end.
 
 (* how = 0: fill_buf; otherwise read_exact of one byte; after seeking to frame k, offset upos *)
-Definition seek_then (frames : list N) (k : nat) (upos : N) (how : N) : res N :=
-  let '(c, rest) := seek (skipn k frames) upos in
+Definition seek_then_with (setp : cur -> N -> cur) (frames : list N) (k : nat) (upos : N) (how : N) : res N :=
+  let '(c, rest) := seek_with setp (skipn k frames) upos in
   if how =? 0 then fill_buf c rest else read_exact1 c rest.
+
+Definition seek_then := seek_then_with set_position.
+(* the reader before the repair *)
+Definition seek_then_unclamped := seek_then_with set_position_unclamped.
 
 (* length of the block that seek leaves loaded *)
 Definition loaded_len (frames : list N) : N := snd (fst (read_block frames (0, 0))).
